@@ -4,7 +4,7 @@
 # (demo exits 0 on the unchanged code and 1 with the patch), stores them as /verif/seeded/<name>/ and prints what
 # the property's quick check says about the patched tree.
 HERE="$(cd "$(dirname "$0")/.." && pwd)"
-prop="$1"; name="$2"
+prop="$1"; name="$2"; chk="${3:-$1}"
 SRC=/tmp/seed/$prop/seeded
 [ -f "$SRC/patch.diff" ] && [ -f "$SRC/demo.py" ] || { echo "missing deliverables in $SRC"; exit 2; }
 D="$HERE/seeded/$name"; mkdir -p "$D"
@@ -23,5 +23,5 @@ fi
 echo "demo without patch: exit=$rc0  [$tail0]"
 echo "demo with patch:    exit=$rc1  [$tail1]"
 git -C /repo worktree remove --force "$WT" >/dev/null 2>&1; rm -rf "$WT"; git -C /repo worktree prune
-echo "{\"property\": \"$prop\", \"demo_exit_unpatched\": \"$rc0\", \"demo_exit_patched\": \"$rc1\"}" > "$D/confirm.json"
-"$HERE/tools/seeded_check.sh" "$name" "$prop"
+echo "{\"property\": \"$chk\", \"demo_exit_unpatched\": \"$rc0\", \"demo_exit_patched\": \"$rc1\"}" > "$D/confirm.json"
+"$HERE/tools/seeded_check.sh" "$name" "$chk"
